@@ -861,20 +861,28 @@ class H2Stream:
 
             input_ = StreamInputs.SEND_INFORMATIONAL_HEADERS
 
+        state_before = dict(vars(self.state_machine))
         events = self.state_machine.process_input(input_)
 
-        # This has to be checked before the headers are encoded: encoding
-        # makes an irreversible change to the header compression context.
-        if self.state_machine.trailers_sent and not end_stream:
-            raise ProtocolError("Trailers must have END_STREAM set.")
+        try:
+            # This has to be checked before the headers are encoded: encoding
+            # makes an irreversible change to the header compression context.
+            if self.state_machine.trailers_sent and not end_stream:
+                raise ProtocolError("Trailers must have END_STREAM set.")
 
-        hf = HeadersFrame(self.stream_id)
-        hdr_validation_flags = self._build_hdr_validation_flags(events)
-        frames = self._build_headers_frames(
-            headers, encoder, hf, hdr_validation_flags,
-            # Priority information takes up five bytes of the HEADERS frame.
-            first_frame_overhead=5 if priority_present else 0
-        )
+            hf = HeadersFrame(self.stream_id)
+            hdr_validation_flags = self._build_hdr_validation_flags(events)
+            frames = self._build_headers_frames(
+                headers, encoder, hf, hdr_validation_flags,
+                # Priority information takes up five bytes of the HEADERS
+                # frame.
+                first_frame_overhead=5 if priority_present else 0
+            )
+        except Exception:
+            # The header block was refused before anything was encoded, so
+            # nothing will be sent: the stream is still where it was.
+            vars(self.state_machine).update(state_before)
+            raise
 
         if end_stream:
             # Not a bug: the END_STREAM flag is valid on the initial HEADERS
